@@ -244,11 +244,177 @@ pub proof fn lemma_merge_iter2(o: &Allocator, p: &Allocator, n: &Allocator, k: n
     }
 }
 
+// where every index ended up after both loops (n = state after the loops, before/after the free-list extension)
+pub open spec fn merge_final(o: &Allocator, n: &Allocator) -> bool {
+    &&& forall|i: u32| #![trigger n.gid(i as int)] #![trigger n.alive@.contains(i)]
+            (o.killed@.contains(i) ==> !n.alive@.contains(i) && n.gid(i as int) == -base_gid(o, i))
+            && (!o.killed@.contains(i) ==> n.alive@.contains(i) == o.occ(i) && n.gid(i as int) == base_gid(o, i))
+    &&& forall|i: u32| #![trigger o.occ(i)] o.occ(i) ==> base_gid(o, i) == o.hw(i) && o.hw(i) >= 1
+    &&& forall|i: u32| #![trigger o.occ(i)] !o.occ(i) ==> base_gid(o, i) == o.gid(i as int) && o.gid(i as int) <= 0
+    &&& n.raised@ == Set::<u32>::empty() && n.killed@ == Set::<u32>::empty() && n.max_id@ == o.max_id@
+    &&& gens_nonzero(n)
+}
+
+pub proof fn lemma_merge_final(o: &Allocator, m: &Allocator, n: &Allocator, deleted: Seq<Entity>)
+    requires
+        o.wf(), merge_inv2(o, m, sorted_seq(o.killed@).len(), deleted),
+        n.killed@ == Set::<u32>::empty(),
+        n.generations == m.generations && n.alive == m.alive && n.raised == m.raised && n.max_id == m.max_id,
+    ensures merge_final(o, n),
+{
+    assert forall|k: int| n.gid(k) == m.gid(k) by {}
+    assert forall|i: u32| #![trigger n.gid(i as int)] #![trigger n.alive@.contains(i)]
+            (o.killed@.contains(i) ==> !n.alive@.contains(i) && n.gid(i as int) == -base_gid(o, i))
+            && (!o.killed@.contains(i) ==> n.alive@.contains(i) == o.occ(i) && n.gid(i as int) == base_gid(o, i)) by {
+        lemma_sorted_full_prefix(o.killed@, i);
+        assert(m.gid(i as int) == n.gid(i as int));
+    }
+    assert forall|i: u32| #![trigger o.occ(i)] o.occ(i) implies base_gid(o, i) == o.hw(i) && o.hw(i) >= 1 by {
+        lemma_cur_gen_is_hw(o, i);
+        assert(o.alive@.contains(i) <==> o.gid(i as int) > 0);
+        if o.raised@.contains(i) { assert(o.gid(i as int) <= 0); }
+    }
+    assert forall|i: u32| #![trigger o.occ(i)] !o.occ(i) implies base_gid(o, i) == o.gid(i as int) && o.gid(i as int) <= 0 by {
+        assert(o.alive@.contains(i) <==> o.gid(i as int) > 0);
+    }
+    assert(gens_nonzero(n)) by { assert(gens_nonzero(m)); }
+}
+
+pub proof fn lemma_merge_abs(o: &Allocator, n: &Allocator)
+    requires o.wf(), merge_final(o, n),
+    ensures n.abs().core_eq(o.abs().merged()),
+{
+    let t = o.abs().merged();
+    assert forall|i: u32| n.hw(i) == o.hw(i) by {
+        assert(n.gid(i as int) == n.gid(i as int));
+        if o.killed@.contains(i) { assert(o.occ(i)); }
+        if o.occ(i) { } else { assert(!o.occ(i)); }
+    }
+    assert(n.abs().hw =~= t.hw);
+    assert forall|i: u32| n.abs().alive.contains(i) == t.alive.contains(i) by {
+        assert(n.gid(i as int) == n.gid(i as int));
+        if o.killed@.contains(i) { assert(o.occ(i)); }
+    }
+    assert(n.abs().alive =~= t.alive);
+    assert(n.abs().raised =~= t.raised);
+    assert(n.abs().killed =~= t.killed);
+}
+
+pub proof fn lemma_merge_out(o: &Allocator, deleted: Seq<Entity>)
+    requires
+        o.wf(), deleted.len() == sorted_seq(o.killed@).len(),
+        forall|j: int| 0 <= j < deleted.len() ==> hid(#[trigger] deleted[j]) == (sorted_seq(o.killed@)[j], base_gid(o, sorted_seq(o.killed@)[j])),
+    ensures
+        deleted.map_values(|e: Entity| hid(e)) =~= o.abs().merged_out(),
+        forall|j: int| 0 <= j < deleted.len() ==> o.abs().current(#[trigger] deleted[j]),
+        ids(deleted) =~= sorted_seq(o.killed@),
+{
+    broadcast use axiom_sorted_seq;
+    let ks = sorted_seq(o.killed@);
+    assert forall|j: int| 0 <= j < deleted.len() implies hid(#[trigger] deleted[j]) == (ks[j], o.hw(ks[j])) && o.abs().current(deleted[j]) by {
+        assert(ks.contains(ks[j]));
+        assert(o.killed@.contains(ks[j]));
+        assert(o.occ(ks[j]));
+        lemma_cur_gen_is_hw(o, ks[j]);
+        assert(o.alive@.contains(ks[j]) <==> o.gid(ks[j] as int) > 0);
+        if o.raised@.contains(ks[j]) { assert(o.gid(ks[j] as int) <= 0); }
+    }
+    assert(deleted.map_values(|e: Entity| hid(e)) =~= o.abs().merged_out());
+    assert forall|j: int| 0 <= j < ids(deleted).len() implies ids(deleted)[j] == ks[j] by { assert(hid(deleted[j]).0 == ks[j]); }
+}
+
+pub proof fn lemma_merge_headroom(o: &Allocator, n: &Allocator)
+    requires o.wf(), o.headroom(), merge_final(o, n),
+    ensures n.headroom_n(2),
+{
+    assert forall|i: u32| -(i32::MAX - 2) < #[trigger] n.gid(i as int) && n.gid(i as int) < i32::MAX - 2 by {
+        assert(-(i32::MAX - 3) < o.gid(i as int) && o.gid(i as int) < i32::MAX - 3);
+        assert(n.gid(i as int) == n.gid(i as int));
+    }
+}
+
+pub proof fn lemma_merge_wf(o: &Allocator, n: &Allocator)
+    requires
+        o.wf(), merge_final(o, n), n.cache.wf(),
+        n.cache@ == o.cache@ + sorted_seq(o.killed@),
+    ensures
+        n.wf(),
+        o.wf_complete() ==> n.wf_complete(),
+{
+    broadcast use axiom_sorted_seq;
+    let ks = sorted_seq(o.killed@);
+    let ml = o.cache@.len() as int;
+    assert forall|i: u32| #![trigger n.alive@.contains(i)] n.alive@.contains(i) <==> n.gid(i as int) > 0 by {
+        assert(n.gid(i as int) == n.gid(i as int));
+        if o.killed@.contains(i) { assert(o.occ(i)); }
+        if o.occ(i) { } else { assert(!o.occ(i)); }
+    }
+    assert forall|i: u32| #![trigger n.gid(i as int)] (i as int) >= n.max_id@ implies n.gid(i as int) == 0 by {
+        assert(o.gid(i as int) == 0);
+        if o.raised@.contains(i) { assert((i as int) < o.max_id@); }
+        if o.alive@.contains(i) { assert(o.gid(i as int) > 0); }
+        assert(!o.occ(i));
+        if o.killed@.contains(i) { assert(o.occ(i)); }
+    }
+    assert forall|k: int| 0 <= k < n.cache@.len() implies {
+            let j = #[trigger] n.cache@[k];
+            (j as int) < n.max_id@ && !n.occ(j) && n.gid(j as int) < 0 } by {
+        if k < ml {
+            let j = o.cache@[k];
+            assert(n.cache@[k] == j);
+            assert((j as int) < o.max_id@ && !o.occ(j) && o.gid(j as int) < 0);
+            if o.killed@.contains(j) { assert(o.occ(j)); }
+            assert(n.gid(j as int) == base_gid(o, j));
+        } else {
+            let y = k - ml;
+            assert(n.cache@[k] == ks[y]);
+            let j = ks[y];
+            assert(ks.contains(j));
+            assert(o.killed@.contains(j));
+            assert(o.occ(j));
+            assert(n.gid(j as int) == -base_gid(o, j));
+            if o.raised@.contains(j) { assert((j as int) < o.max_id@); }
+            if o.alive@.contains(j) { assert(o.gid(j as int) > 0); if (j as int) >= o.max_id@ { assert(o.gid(j as int) == 0); } }
+        }
+    }
+    assert forall|k: int, l: int| 0 <= k < l < n.cache@.len() implies n.cache@[k] != n.cache@[l] by {
+        if l < ml {
+            assert(n.cache@[k] == o.cache@[k] && n.cache@[l] == o.cache@[l]);
+        } else if k < ml {
+            let y = l - ml;
+            assert(n.cache@[l] == ks[y]);
+            assert(ks.contains(ks[y]));
+            assert(o.occ(ks[y]));
+            assert(n.cache@[k] == o.cache@[k]);
+            assert(!o.occ(o.cache@[k]));
+        } else {
+            let x = k - ml; let y = l - ml;
+            assert(n.cache@[k] == ks[x] && n.cache@[l] == ks[y]);
+        }
+    }
+    assert(n.wf());
+    if o.wf_complete() {
+        assert forall|j: u32| #![trigger n.occ(j)] (j as int) < n.max_id@ && !n.occ(j) implies n.cache@.contains(j) by {
+            assert(n.gid(j as int) == n.gid(j as int));
+            if o.killed@.contains(j) {
+                assert(ks.contains(j));
+                let x = choose|x: int| 0 <= x < ks.len() && ks[x] == j;
+                assert(n.cache@[ml + x] == j);
+            } else {
+                assert(!o.occ(j));
+                assert(o.cache@.contains(j));
+                let x = choose|x: int| 0 <= x < o.cache@.len() && o.cache@[x] == j;
+                assert(n.cache@[x] == j);
+            }
+        }
+    }
+}
+
 pub proof fn lemma_merge_done(o: &Allocator, m: &Allocator, n: &Allocator, deleted: Seq<Entity>)
     requires
         o.wf(), o.headroom(), merge_inv2(o, m, sorted_seq(o.killed@).len(), deleted),
         n.killed@ == Set::<u32>::empty(),
-        n.generations == m.generations && n.alive == m.alive && n.raised == m.raised && n.max_id@ == m.max_id@,
+        n.generations == m.generations && n.alive == m.alive && n.raised == m.raised && n.max_id == m.max_id,
         n.cache.wf(),
     ensures
         n.abs().core_eq(o.abs().merged()),
@@ -261,119 +427,14 @@ pub proof fn lemma_merge_done(o: &Allocator, m: &Allocator, n: &Allocator, delet
             &&& o.wf_complete() ==> n.wf_complete()
         },
 {
-    broadcast use axiom_sorted_seq;
-    let ks = sorted_seq(o.killed@);
-    let a = ids(deleted);
-    assert forall|k: int| n.gid(k) == m.gid(k) by {}
-    // every index: where it ended up
-    assert forall|i: u32| #![trigger n.gid(i as int)] (o.killed@.contains(i) ==> !n.alive@.contains(i) && n.gid(i as int) == -base_gid(o, i))
-        && (!o.killed@.contains(i) ==> n.alive@.contains(i) == o.occ(i) && n.gid(i as int) == base_gid(o, i)) by {
-        lemma_sorted_full_prefix(o.killed@, i);
-        assert(m.gid(i as int) == n.gid(i as int));
-    }
-    assert forall|i: u32| o.occ(i) implies base_gid(o, i) == o.hw(i) && o.hw(i) >= 1 by {
-        lemma_cur_gen_is_hw(o, i);
-        assert(o.alive@.contains(i) <==> o.gid(i as int) > 0);
-        if o.raised@.contains(i) { assert(o.gid(i as int) <= 0); }
-    }
-    assert forall|i: u32| !o.occ(i) implies base_gid(o, i) == o.gid(i as int) && o.gid(i as int) <= 0 by {
-        assert(o.alive@.contains(i) <==> o.gid(i as int) > 0);
-    }
-    // ---- abstract state
-    let t = o.abs().merged();
-    assert forall|i: u32| n.hw(i) == o.hw(i) by {
-        assert(n.gid(i as int) == n.gid(i as int));
-        if o.killed@.contains(i) { assert(o.occ(i)); }
-    }
-    assert(n.abs().hw =~= t.hw);
-    assert forall|i: u32| n.abs().alive.contains(i) == t.alive.contains(i) by {
-        assert(n.gid(i as int) == n.gid(i as int));
-        if o.killed@.contains(i) { assert(o.occ(i)); }
-    }
-    assert(n.abs().alive =~= t.alive);
-    assert(n.abs().raised =~= t.raised);
-    assert(n.abs().killed =~= t.killed);
-    // ---- returned handles
-    assert forall|j: int| 0 <= j < deleted.len() implies hid(#[trigger] deleted[j]) == (ks[j], o.hw(ks[j])) && o.abs().current(deleted[j]) by {
-        assert(ks.contains(ks[j]));
-        assert(o.killed@.contains(ks[j]));
-        assert(o.occ(ks[j]));
-    }
-    assert(deleted.map_values(|e: Entity| hid(e)) =~= o.abs().merged_out());
-    assert(a =~= ks) by {
-        assert forall|j: int| 0 <= j < a.len() implies a[j] == ks[j] by { assert(hid(deleted[j]).0 == ks[j]); }
-    }
-    // ---- headroom
-    assert forall|i: u32| -(i32::MAX - 2) < #[trigger] n.gid(i as int) && n.gid(i as int) < i32::MAX - 2 by {
-        assert(-(i32::MAX - 3) < o.gid(i as int) && o.gid(i as int) < i32::MAX - 3);
-        assert(n.gid(i as int) == n.gid(i as int));
-    }
-    if n.cache@ == m.cache@ + a {
-        assert forall|i: u32| #![trigger n.alive@.contains(i)] n.alive@.contains(i) <==> n.gid(i as int) > 0 by {
-            assert(n.gid(i as int) == n.gid(i as int));
-            if o.killed@.contains(i) { assert(o.occ(i)); }
-        }
-        assert forall|i: u32| #![trigger n.gid(i as int)] (i as int) >= n.max_id@ implies n.gid(i as int) == 0 by {
-            assert(o.gid(i as int) == 0);
-            if o.raised@.contains(i) { assert((i as int) < o.max_id@); }
-            if o.alive@.contains(i) { assert(o.gid(i as int) > 0); }
-            assert(!o.occ(i));
-            if o.killed@.contains(i) { assert(o.occ(i)); }
-        }
-        assert forall|k: int| 0 <= k < n.cache@.len() implies {
-                let j = #[trigger] n.cache@[k];
-                (j as int) < n.max_id@ && !n.occ(j) && n.gid(j as int) < 0 } by {
-            if k < m.cache@.len() {
-                let j = o.cache@[k];
-                assert(n.cache@[k] == j);
-                assert((j as int) < o.max_id@ && !o.occ(j) && o.gid(j as int) < 0);
-                if o.killed@.contains(j) { assert(o.occ(j)); }
-                assert(n.gid(j as int) == base_gid(o, j));
-            } else {
-                let y = k - m.cache@.len();
-                assert(n.cache@[k] == a[y]);
-                let j = ks[y];
-                assert(ks.contains(j));
-                assert(o.killed@.contains(j));
-                assert(o.occ(j));
-                assert(n.gid(j as int) == -base_gid(o, j));
-                if o.raised@.contains(j) { assert((j as int) < o.max_id@); }
-                if o.alive@.contains(j) { assert(o.gid(j as int) > 0); if (j as int) >= o.max_id@ { assert(o.gid(j as int) == 0); } }
-            }
-        }
-        assert forall|k: int, l: int| 0 <= k < l < n.cache@.len() implies n.cache@[k] != n.cache@[l] by {
-            let ml = m.cache@.len();
-            if l < ml {
-                assert(n.cache@[k] == o.cache@[k] && n.cache@[l] == o.cache@[l]);
-            } else if k < ml {
-                let y = l - ml;
-                assert(n.cache@[l] == ks[y]);
-                assert(ks.contains(ks[y]));
-                assert(o.occ(ks[y]));
-                assert(n.cache@[k] == o.cache@[k]);
-                assert(!o.occ(o.cache@[k]));
-            } else {
-                let x = k - ml; let y = l - ml;
-                assert(n.cache@[k] == ks[x] && n.cache@[l] == ks[y]);
-            }
-        }
-        assert(gens_nonzero(n)) by { assert(gens_nonzero(m)); }
-        assert(n.wf());
-        assert(n.abs().free =~= t.free);
-        if o.wf_complete() {
-            assert forall|j: u32| #![trigger n.occ(j)] (j as int) < n.max_id@ && !n.occ(j) implies n.cache@.contains(j) by {
-                assert(n.gid(j as int) == n.gid(j as int));
-                if o.killed@.contains(j) {
-                    assert(ks.contains(j));
-                    let x = choose|x: int| 0 <= x < ks.len() && ks[x] == j;
-                    assert(n.cache@[m.cache@.len() + x] == j);
-                } else {
-                    assert(!o.occ(j));
-                    assert(o.cache@.contains(j));
-                    let x = choose|x: int| 0 <= x < o.cache@.len() && o.cache@[x] == j;
-                    assert(n.cache@[x] == j);
-                }
-            }
-        }
+    lemma_merge_final(o, m, n, deleted);
+    lemma_merge_abs(o, n);
+    lemma_merge_out(o, deleted);
+    lemma_merge_headroom(o, n);
+    if n.cache@ == m.cache@ + ids(deleted) {
+        assert(m.cache == o.cache);
+        assert(n.cache@ == o.cache@ + sorted_seq(o.killed@));
+        lemma_merge_wf(o, n);
+        assert(n.abs().free =~= o.abs().merged().free);
     }
 }
